@@ -14,6 +14,11 @@ pub fn oracle(spec: &RespSpec, case: &RespCase, out: &RespOut) -> Result<(), (St
     }
     let mut got: Vec<u8> = vec![];
     match &case.reads {
+        Reads::Text(_) => match out.events.as_slice() {
+            [Ev::Ok(bs)] if *bs == String::from_utf8_lossy(&payload).as_bytes() => Ok(()),
+            [Ev::Ok(bs)] => Err((format!("text-mismatch-{}", fr), format!("text_utf8() returned {} bytes for a {}-byte payload and it is not its lossy UTF-8 decoding", bs.len(), payload.len()))),
+            other => Err((format!("text-error-{}", fr), format!("text_utf8() gave {:?}", other.first().map(|e| e.to_string())))),
+        },
         Reads::Drain(_) => match out.events.as_slice() {
             [Ev::Ok(bs)] if *bs == payload => Ok(()),
             [Ev::Ok(bs)] => Err((format!("bytes-mismatch-{}", fr), format!("bytes() returned {} bytes, payload has {}", bs.len(), payload.len()))),
@@ -70,7 +75,9 @@ pub fn generate(seed: u64, tier: &str, sink: &mut Sink) {
         let head_len = spec.head_bytes().len();
         let (segs, segname) = segment(&mut rng, &wire, &interesting_offsets(&wire, head_len));
         let payload_len = spec.payload().len();
-        let (reads, rname) = if rng.chance(1, 5) {
+        let (reads, rname) = if rng.chance(1, 12) {
+            (Reads::Text(8192), "text_utf8()")
+        } else if rng.chance(1, 5) {
             (Reads::Drain(8192), "bytes()")
         } else {
             let (ns, name) = read_schedule(&mut rng, payload_len, pieces(&spec, segs.len(), max_buf));
